@@ -74,9 +74,16 @@ def stepClient2 (k : Client2) (toks : List String) : Option (Client2 × String) 
     let k' : Client2 := if r.1.susp.isEmpty then { r.1 with blockIds := [] } else r.1
     some (k', s!"{showOuts r.2.2} blocked={k'.susp.length}")
   | ["CL", "release", how] =>
+    let isStart := (k.susp.head?.map (·.kind)) == some SuspKind.start
     let r := k.step (.release (how == "ok"))
     let k' : Client2 := if r.1.susp.isEmpty then { r.1 with blockIds := [] } else r.1
-    some (k', s!"{showOuts r.2.2} blocked={k'.susp.length}")
+    let pre := if isStart then s!"sret={showCErr r.2.1} " else ""
+    some (k', s!"{pre}{showOuts r.2.2} blocked={k'.susp.length}")
+  -- Start whose first write blocks: it returns at the next `release`
+  | ["CL", "startb", id, raw, h] =>
+    let r := k.step (.startBlocked (hex! id) (hex! raw) (nat! h))
+    let pending := r.1.susp.length > k.susp.length
+    some (r.1, s!"ret={if pending then "pending" else showCErr r.2.1} {showOuts r.2.2} blocked={r.1.susp.length}")
   | "CL" :: "new" :: _ => (stepClient k.c toks).map (fun r => ({ c := r.1 }, r.2))
   | _ => (stepClient k.c toks).map (fun r => ({ k with c := r.1 }, r.2))
 
